@@ -712,7 +712,7 @@ fn run_shard(
     let config = Config {
         cases: cases as u32,
         failure_persistence: None,
-        max_shrink_iters: 4000,
+        max_shrink_iters: if sub.isolated { 300 } else { 4000 },
         max_shrink_time: 0,
         max_global_rejects: 1 << 20,
         verbose: 0,
@@ -738,7 +738,12 @@ fn run_shard(
         let want_desc = !failed_already && st.0.samples.len() < 3;
         let (rec, fp, res) = if sub.isolated {
             let mut w = wk_cell.borrow_mut();
-            let out = worker::run_case_isolated(w.as_mut().unwrap(), prop, sub.name, &choices, want_desc, timeout, hang_viol);
+            let out = if failed_already {
+                let t = (timeout / 25).max(Duration::from_millis(200));
+                worker::run_case_isolated_ext(w.as_mut().unwrap(), prop, sub.name, &choices, false, t, true, true)
+            } else {
+                worker::run_case_isolated(w.as_mut().unwrap(), prop, sub.name, &choices, want_desc, timeout, hang_viol)
+            };
             match out {
                 worker::IsoOutcome::Done(rec, fp, res) => (rec, fp, res),
                 worker::IsoOutcome::InconclusiveHang => {
@@ -839,6 +844,8 @@ pub fn strategy_smoke() {
 pub fn main_with(props: Vec<Prop>) -> ! {
     install_panic_hook();
     let opts = parse_args();
+    // generators may scale sizes with the tier; workers inherit the variable
+    std::env::set_var("VERIF_TIER", opts.tier.name());
     let Some(prop) = props.into_iter().find(|p| p.id == opts.prop) else {
         eprintln!("property {} is not served by this binary", opts.prop);
         std::process::exit(2);
